@@ -10,6 +10,7 @@ import (
 	"time"
 
 	"github.com/jig/lisp"
+	"github.com/jig/lisp/lib/call"
 	"github.com/jig/lisp/types"
 	"pgregory.net/rapid"
 
@@ -72,6 +73,8 @@ var kernels = map[string]string{
 	"reduce-loop":            "(reduce (fn (a x) (up a)) 0 [1 2 3])",
 	"earlier-future":         "@earlier-fut",
 	"future-among-many":      "@(future (sleep 100000))",
+	// a sleep that would end before the FAR deadline of the cancel-before-a-far-deadline mode (6 s)
+	"sleep-shorter-than-far-deadline": "(do (sleep 4500) (sleep 100000))",
 	// a future of an earlier evaluation is in the middle of a slow swap! of the same atom
 	"swap-behind-slow-swap": "(do (swap! shared-atom (fn (x) (+ x 1))) (spin))",
 	// the update function swaps the atom it is applied to: re-applied for ever
@@ -125,6 +128,11 @@ func (s Shape) Text() string {
 		return "((fn () " + s.Sub.Text() + "))"
 	case "if":
 		return "(if true " + s.Sub.Text() + " 0)"
+	case "retry":
+		// the retry idiom: the handler re-enters the function in tail position; the first attempt uses up 30% of
+		// the time and throws, the second one is the long-running one, its handler is quick
+		return "(do (def retry-fn (fn (n) (try (if (< n 1) (do (burn-30!) (throw :first-attempt)) " + s.Sub.Text() +
+			") (catch e (if (< n 1) (retry-fn (+ n 1)) (do (trace! :h) :h)))))) (retry-fn 0))"
 	}
 	return "nil"
 }
@@ -143,6 +151,8 @@ func (s Shape) outcome() string {
 			return "timeout"
 		}
 		return in
+	case "retry":
+		return "handler"
 	}
 	return s.Sub.outcome()
 }
@@ -200,6 +210,9 @@ func genShape(t *rapid.T, d int) Shape {
 	case 6:
 		return Shape{Kind: "call", Sub: &sub}
 	}
+	if sub.outcome() == "timeout" && gen.Uniform(t, "retry", 2) == 0 {
+		return Shape{Kind: "retry", Sub: &sub}
+	}
 	return Shape{Kind: "if", Sub: &sub}
 }
 
@@ -227,6 +240,17 @@ func runOnce(c Case, millis int) result {
 	e := box.FullEnv()
 	tr := box.AddTrace(e)
 	bg := context.Background()
+	// burn-30!: sleeps 30% of what is left until the deadline of the evaluation it is called in (nothing without one)
+	call.CallOverrideFN(e, "burn-30!", func(ctx context.Context) (types.MalType, error) {
+		if dl, ok := ctx.Deadline(); ok {
+			select {
+			case <-time.After(time.Until(dl) * 3 / 10):
+			case <-ctx.Done():
+				return nil, ctx.Err()
+			}
+		}
+		return nil, nil
+	})
 	if r := box.ReadEval(bg, defs, e); r.Err != nil || r.Panicked {
 		panic(fmt.Sprintf("defs: %v %v", r.Err, r.PanicVal))
 	}
